@@ -38,6 +38,30 @@ def run(run):
         sr.stop_marker(run, f, sp)
         sr.stop_marker_ends_loop(run, lc, rule="O1.6")
         c07.no_strong_across_select(run, lc)     # O1.7
+        tell_commits_last(run, f, sp)
+
+
+def tell_commits_last(run, f, sp):
+    """O1.8: a tell that reports an error (e.g. Timeout when its future is dropped by tell_with_timeout) was never enqueued:
+    waiting for the mailbox slot is the only suspension point of `tell`, so the future cannot be cancelled *after* the
+    message was committed and before the outcome is reported (tokio's send itself is cancel-safe: axiom T1)."""
+    from rules.common import cfg_of, loc_of
+    sites = [s_ for s_, m in sp.mailbox_ops if m == "send" and sr.short_fn(s_.root) == "tell"]
+    if not run.require(len(sites) == 1, "O1.8", "tell-send-site", "tell has %d waiting send sites" % len(sites), "one waiting send in tell"):
+        return
+    b = sites[0].body
+    cfg = cfg_of(b)
+    ys = [blk.idx for blk in b.blocks if blk.term["k"] == "yield" and blk.idx in cfg.live]
+    after = cfg.reachable_from(sites[0].bb)
+    # the send's own await: the first suspension point reached from the send call; any other one is a second await
+    own = [y for y in ys if y in after]
+    extra = []
+    if own:
+        first = min(own, key=lambda y: len(cfg.path(sites[0].bb, y) or [0] * 999))
+        extra = [y for y in ys if y != first]
+    run.require(len(ys) == 1 or (own and not extra), "O1.8", "tell-single-suspension-point",
+                "tell has %d suspension points (%s): its future can be dropped after the message was enqueued and before Ok is reported - a caller of tell_with_timeout would get Err(Timeout) for a message that is handled"
+                % (len(ys), [loc_of(b, y) for y in ys]), "the wait for a mailbox slot is tell's only suspension point", loc=sites[0].loc)
 
 
 def rejection(run, f, sp):
